@@ -16,7 +16,7 @@ EXTENDS MastDiffOps, MastCursorOps, Json
 Trace == ndJsonDeserialize("trace.ndjson")
 VARIABLES l, viol, stat
 tvars == <<l, viol, stat>>
-Stat0 == [dlinks |-> 0, events |-> 0, errs |-> 0, oks |-> 0, panics |-> 0, swallowed |-> 0, nothit |-> 0, load |-> 0, cmp |-> 0, marshal |-> 0, unmarshal |-> 0,
+Stat0 == [rwalk |-> 0, dlinks |-> 0, events |-> 0, errs |-> 0, oks |-> 0, panics |-> 0, swallowed |-> 0, nothit |-> 0, load |-> 0, cmp |-> 0, marshal |-> 0, unmarshal |-> 0,
           pairs |-> 0, ins |-> 0, del |-> 0, get |-> 0, iter |-> 0, seek |-> 0, clone |-> 0, walk |-> 0, diff |-> 0]
 TInit == l = 1 /\ viol = {} /\ stat = Stat0
 Ev == Trace[l]
@@ -36,6 +36,7 @@ Normal(e) ==
        [] c.op = "iter" -> [res |-> "ok", ents |-> S, data |-> S]
        [] c.op = "clone" -> [res |-> "ok", ents |-> S, data |-> S]
        [] c.op = "seek" -> [res |-> "ok", ents |-> S, data |-> From(S, c.k)]
+       [] c.op = "rwalk" -> [res |-> "ok", ents |-> S, data |-> Expected(S, [start |-> c.start, p |-> c.k, moves |-> c.moves])]
        [] c.op = "walk" -> [res |-> "ok", ents |-> S, data |-> Expected(S, [start |-> c.start, p |-> c.k, moves |-> c.moves])]
        [] c.op = "dlinks" -> [res |-> "ok", ents |-> S, data |-> e.ndata]
        [] c.op = "diff" -> [res |-> "ok", ents |-> S, data |-> Num(ModelDiff(MapOf(e.oents), m))]
@@ -52,7 +53,7 @@ GrowingInsert(e, n) == e.call.op = "ins" /\ e.pre.size >= Pow(e.cfg.bf, e.pre.he
 
 C12(e) ==
   LET n0 == Normal(e)
-      walk == e.call.op = "walk"
+      walk == e.call.op \in {"walk", "rwalk"}
       n == [n0 EXCEPT !.data = IF walk THEN UpToOff(@) ELSE @]
       edata == IF walk THEN UpToOff(e.data) ELSE e.data
       erdata == IF walk THEN UpToOff(e.rdata) ELSE e.rdata
@@ -70,7 +71,9 @@ C12(e) ==
                 ELSE IF e.rres # "ok" THEN {V("the same call fails when retried after the fault has cleared")}
                 ELSE IF erdata # n.data \/ ~Same(e.rpost, n.ents, Len(n.ents)) THEN {V("the retried call does not give the normal result")} ELSE {})
      ELSE IF e.res = "ok" /\ n.res = "ok" THEN
-          (IF edata # n.data \/ ~Same(e.post, n.ents, Len(n.ents)) THEN {V("a fault was swallowed and the operation's result or effect is wrong")} ELSE {})
+          (IF edata # n.data \/ ~Same(e.post, n.ents, Len(n.ents))
+           THEN {V(IF e.call.op = "rwalk" /\ e.hit > 0 THEN "a navigation call that failed does not give the normal result when made again on the same cursor"
+                   ELSE "a fault was swallowed and the operation's result or effect is wrong")} ELSE {})
      ELSE {}
 
 (* C09 on the version persisted (through a clone) right after a failed insert / delete: a persisted version is a persisted
